@@ -65,41 +65,41 @@ def run(ck):
         inst = "rho/" + cname
         with ck.guard("C02.R1", inst, rho_site):
             paths = _ev(ck, lambda it, s: call(it, s, "rho", tens(it, "v", sv), tens(it, "vp", svp), expand=VConst(expand)))
-            p = single(paths, inst)
-            if not shape_err_verdict(ck, "C02.R2", inst, paths):
-                continue
-            comps = T.as_stack0(p.value.term) if p.value.term is not None else None
-            if comps is None or len(comps) != 2:
-                ck.undecided("C02.R1", inst, rho_site, "rho is not a (re, im) pair")
-                continue
-            re, im = comps
-            exp_mode = expand and len(sv) == 2
-            pl = polar(re, im)
-            if pl is not None:
-                L, phi = pl
-                cl, dl = parity.classify(L, expanded=exp_mode)
-                ck.check(True if cl == "SYM" else (False if cl in ("ANTI", "MIXED", "NEITHER") else None), "C02.R1", inst + ":log|rho| symmetric", rho_site,
-                         "log-modulus of rho(s,s') is %s under exchange s<->s' (must be symmetric): %s" % (cl, parity.describe(dl)))
-                cp, dp = parity.classify(phi, expanded=exp_mode)
-                ck.check(True if cp in ("ANTI", "ZERO") else (False if cp in ("SYM", "MIXED", "NEITHER") else None), "C02.R1", inst + ":arg rho antisymmetric", rho_site,
-                         "phase of rho(s,s') is %s under exchange s<->s' (must be antisymmetric): %s" % (cp, parity.describe(dp)))
-            else:
-                c1, _ = parity.classify(re, expanded=exp_mode)
-                c2, _ = parity.classify(im, expanded=exp_mode)
-                if c1 == "SYM" and c2 in ("ANTI", "ZERO"):
-                    ck.ok("C02.R1", inst + ":re sym, im antisym", rho_site)
-                elif c1 == "ANTI" or c2 == "SYM":
-                    ck.violation("C02.R1", inst + ":re sym, im antisym", rho_site, "Re rho is %s and Im rho is %s under exchange" % (c1, c2))
+            for p in returning(paths, inst):
+                if not shape_err_verdict(ck, "C02.R2", inst, paths):
+                    continue
+                comps = T.as_stack0(p.value.term) if p.value.term is not None else None
+                if comps is None or len(comps) != 2:
+                    ck.undecided("C02.R1", inst, rho_site, "rho is not a (re, im) pair")
+                    continue
+                re, im = comps
+                exp_mode = expand and len(sv) == 2
+                pl = polar(re, im)
+                if pl is not None:
+                    L, phi = pl
+                    cl, dl = parity.classify(L, expanded=exp_mode)
+                    ck.check(True if cl == "SYM" else (False if cl in ("ANTI", "MIXED", "NEITHER") else None), "C02.R1", inst + ":log|rho| symmetric", rho_site,
+                             "log-modulus of rho(s,s') is %s under exchange s<->s' (must be symmetric): %s" % (cl, parity.describe(dl)))
+                    cp, dp = parity.classify(phi, expanded=exp_mode)
+                    ck.check(True if cp in ("ANTI", "ZERO") else (False if cp in ("SYM", "MIXED", "NEITHER") else None), "C02.R1", inst + ":arg rho antisymmetric", rho_site,
+                             "phase of rho(s,s') is %s under exchange s<->s' (must be antisymmetric): %s" % (cp, parity.describe(dp)))
                 else:
-                    ck.undecided("C02.R1", inst, rho_site, "rho is not of the form A(cos, sin)(phi) and its parts are %s / %s" % (c1, c2))
-            # dependence (R3): rho depends on all of rbm_am.{W,U,b,c,d} and rbm_ph.{W,U,b,c}, not on rbm_ph.d
-            deps = p.value.term.syms() - {"v", "vp"}
-            it0 = p.interp
-            want = _param_names(ck, "rho-deps")
-            if want is not None:
-                w_all = set(want["am"].values()) | {n for r, n in want["ph"].items() if r != "d"}
-                ck.check(deps == w_all, "C02.R3", inst + ":deps", rho_site,
-                         "rho depends on %s; expected exactly %s" % (sorted(deps), sorted(w_all)), deps=sorted(deps))
+                    c1, _ = parity.classify(re, expanded=exp_mode)
+                    c2, _ = parity.classify(im, expanded=exp_mode)
+                    if c1 == "SYM" and c2 in ("ANTI", "ZERO"):
+                        ck.ok("C02.R1", inst + ":re sym, im antisym", rho_site)
+                    elif c1 == "ANTI" or c2 == "SYM":
+                        ck.violation("C02.R1", inst + ":re sym, im antisym", rho_site, "Re rho is %s and Im rho is %s under exchange" % (c1, c2))
+                    else:
+                        ck.undecided("C02.R1", inst, rho_site, "rho is not of the form A(cos, sin)(phi) and its parts are %s / %s" % (c1, c2))
+                # dependence (R3): rho depends on all of rbm_am.{W,U,b,c,d} and rbm_ph.{W,U,b,c}, not on rbm_ph.d
+                deps = p.value.term.syms() - {"v", "vp"}
+                it0 = p.interp
+                want = _param_names(ck, "rho-deps")
+                if want is not None:
+                    w_all = set(want["am"].values()) | {n for r, n in want["ph"].items() if r != "d"}
+                    ck.check(deps == w_all, "C02.R3", inst + ":deps", rho_site,
+                             "rho depends on %s; expected exactly %s" % (sorted(deps), sorted(w_all)), deps=sorted(deps))
     # ------------------------------------------------------------------ R2 axis convention / R4 call forms
     shapes_expected = {
         "pi": (2, "Bv", "Bp"), "rho": (2, "Bv", "Bp"), "gamma+": ("Bv", "Bp"), "gamma-": ("Bv", "Bp"),
@@ -124,32 +124,32 @@ def run(ck):
 
     with ck.guard("C02.R2", "expand=True"):
         paths = _ev(ck, lambda it, s: matfuncs(it, s, ("Bv", "nv"), ("Bp", "nv"), True))
-        p = single(paths, "matrix functions")
-        shape_err_verdict(ck, "C02.R2", "expand=True", paths)
-        for nm, want in shapes_expected.items():
-            got = p.value[nm].shape
-            site = _fsite(prog, nm)
-            if got is None:
-                ck.undecided("C02.R2", nm, site, "shape unknown")
-                continue
-            g2 = tuple("P" if (i == len(got) - 1 and len(want) == len(got) and want[-1] == "P") else d for i, d in enumerate(got))
-            ck.check(g2 == want, "C02.R2", nm + ":rows<-v, cols<-vp", site,
-                     "expanded result has axes %s; expected %s (row index enumerates v, column index enumerates vp)" % (got, want), shape=str(got))
+        for p in returning(paths, "matrix functions"):
+            shape_err_verdict(ck, "C02.R2", "expand=True", paths)
+            for nm, want in shapes_expected.items():
+                got = p.value[nm].shape
+                site = _fsite(prog, nm)
+                if got is None:
+                    ck.undecided("C02.R2", nm, site, "shape unknown")
+                    continue
+                g2 = tuple("P" if (i == len(got) - 1 and len(want) == len(got) and want[-1] == "P") else d for i, d in enumerate(got))
+                ck.check(g2 == want, "C02.R2", nm + ":rows<-v, cols<-vp", site,
+                         "expanded result has axes %s; expected %s (row index enumerates v, column index enumerates vp)" % (got, want), shape=str(got))
     for cname, sv, svp, expand, lead in (("expand=False", ("B", "nv"), ("B", "nv"), False, ("B",)), ("vector", ("nv",), ("nv",), False, ())):
         with ck.guard("C02.R4", cname):
             paths = _ev(ck, lambda it, s: matfuncs(it, s, sv, svp, expand))
-            p = single(paths, cname)
-            shape_err_verdict(ck, "C02.R4", cname, paths)
-            for nm, w in shapes_expected.items():
-                got = p.value[nm].shape
-                want = tuple(x for x in w if x not in ("Bv", "Bp", "P"))
-                want = want[:1] + lead if (want and want[0] == 2) else lead
-                if got is None:
-                    ck.undecided("C02.R4", "%s/%s" % (nm, cname), _fsite(prog, nm), "shape unknown")
-                    continue
-                if w[-1] == "P":
-                    got = got[:-1]
-                ck.check(got == want, "C02.R4", "%s/%s" % (nm, cname), _fsite(prog, nm), "result axes %s, expected %s(+params)" % (got, want))
+            for p in returning(paths, cname):
+                shape_err_verdict(ck, "C02.R4", cname, paths)
+                for nm, w in shapes_expected.items():
+                    got = p.value[nm].shape
+                    want = tuple(x for x in w if x not in ("Bv", "Bp", "P"))
+                    want = want[:1] + lead if (want and want[0] == 2) else lead
+                    if got is None:
+                        ck.undecided("C02.R4", "%s/%s" % (nm, cname), _fsite(prog, nm), "shape unknown")
+                        continue
+                    if w[-1] == "P":
+                        got = got[:-1]
+                    ck.check(got == want, "C02.R4", "%s/%s" % (nm, cname), _fsite(prog, nm), "result axes %s, expected %s(+params)" % (got, want))
     # ------------------------------------------------------------------ R3 diagonal == probabilities
     with ck.guard("C02.R3", "diagonal"):
         def diag(it, s):
@@ -165,51 +165,51 @@ def run(ck):
             }
 
         paths = _ev(ck, diag)
-        p = single(paths, "diagonal")
-        if shape_err_verdict(ck, "C02.R3", "diagonal", paths):
-            o = p.value
-            E = o["E"].term
-            comps = T.as_stack0(o["rho_vv"].term)
-            if comps is None:
-                ck.undecided("C02.R3", "diagonal", rho_site, "rho(v, v, expand=False) is not a pair")
-            else:
-                re, im = comps
-                d = None
-                ea = exp_arg(re)
-                if ea is not None and ea[0] == 1 and ea[2] == ():
-                    d = lin_diff(ea[1], -E)
-                    ck.check(diff_verdict(d), "C02.R3", "diagonal:re=exp(-E)", rho_site,
-                             "log of the diagonal element rho(s,s) vs -effective_energy(s): " + diff_msg(d), diag=ea[1], E=E)
+        for p in returning(paths, "diagonal"):
+            if shape_err_verdict(ck, "C02.R3", "diagonal", paths):
+                o = p.value
+                E = o["E"].term
+                comps = T.as_stack0(o["rho_vv"].term)
+                if comps is None:
+                    ck.undecided("C02.R3", "diagonal", rho_site, "rho(v, v, expand=False) is not a pair")
                 else:
-                    ck.undecided("C02.R3", "diagonal:re=exp(-E)", rho_site, "diagonal element is not exp(L): %r" % (re,))
-                ck.check(im.is_zero(), "C02.R3", "diagonal:im=0", rho_site, "imaginary part of rho(s,s) is not identically 0: %r" % (im,))
-            pr = exp_arg(o["prob"].term)
-            ck.check(pr is not None and pr[1] == -E and pr[0] == 1 and pr[2] == (), "C02.R3", "probability=exp(-E)", prog.method(DM, "probability").site(),
-                     "probability(v) is not exp(-effective_energy(v))")
-            c2 = T.as_stack0(o["rho_v"].term)
-            ck.check(c2 is not None and c2[0] == o["prob"].term and c2[1].is_zero(), "C02.R3", "rho(v,expand=False)=probability", rho_site,
-                     "rho(v, expand=False) without vp is not (probability(v), 0)")
-            c3 = T.as_stack0(o["isd"].term)
-            ck.check(c3 is not None and c3[0] == o["prob"].term and c3[1].is_zero(), "C02.R3", "importance_sampling_denominator", prog.method(DM, "importance_sampling_denominator").site(),
-                     "importance_sampling_denominator(v) is not (probability(v), 0)")
-            # R5 energy normal form
-            d = lin_diff(E, ref_energy(T.sym("v"), o["R"]))
-            ck.check(diff_verdict(d), "C02.R5", "effective_energy(v)", prog.method("PurificationRBM", "effective_energy").site(),
-                     "purification effective energy vs -v.b - sum sp(Wv+c) - sum sp(Uv+d): " + diff_msg(d), E=E)
+                    re, im = comps
+                    d = None
+                    ea = exp_arg(re)
+                    if ea is not None and ea[0] == 1 and ea[2] == ():
+                        d = lin_diff(ea[1], -E)
+                        ck.check(diff_verdict(d), "C02.R3", "diagonal:re=exp(-E)", rho_site,
+                                 "log of the diagonal element rho(s,s) vs -effective_energy(s): " + diff_msg(d), diag=ea[1], E=E)
+                    else:
+                        ck.undecided("C02.R3", "diagonal:re=exp(-E)", rho_site, "diagonal element is not exp(L): %r" % (re,))
+                    ck.check(im.is_zero(), "C02.R3", "diagonal:im=0", rho_site, "imaginary part of rho(s,s) is not identically 0: %r" % (im,))
+                pr = exp_arg(o["prob"].term)
+                ck.check(pr is not None and pr[1] == -E and pr[0] == 1 and pr[2] == (), "C02.R3", "probability=exp(-E)", prog.method(DM, "probability").site(),
+                         "probability(v) is not exp(-effective_energy(v))")
+                c2 = T.as_stack0(o["rho_v"].term)
+                ck.check(c2 is not None and c2[0] == o["prob"].term and c2[1].is_zero(), "C02.R3", "rho(v,expand=False)=probability", rho_site,
+                         "rho(v, expand=False) without vp is not (probability(v), 0)")
+                c3 = T.as_stack0(o["isd"].term)
+                ck.check(c3 is not None and c3[0] == o["prob"].term and c3[1].is_zero(), "C02.R3", "importance_sampling_denominator", prog.method(DM, "importance_sampling_denominator").site(),
+                         "importance_sampling_denominator(v) is not (probability(v), 0)")
+                # R5 energy normal form
+                d = lin_diff(E, ref_energy(T.sym("v"), o["R"]))
+                ck.check(diff_verdict(d), "C02.R5", "effective_energy(v)", prog.method("PurificationRBM", "effective_energy").site(),
+                         "purification effective energy vs -v.b - sum sp(Wv+c) - sum sp(Uv+d): " + diff_msg(d), E=E)
     with ck.guard("C02.R5", "effective_energy(v,a)"):
         def ea_(it, s):
             am = it.get_attr(s, "rbm_am", None)
             return call(it, am, "effective_energy", tens(it, "v", ("B", "nv")), tens(it, "a", ("B", "na"))), role_terms(it, am)
 
         paths = _ev(ck, ea_)
-        p = single(paths, "E(v,a)")
-        if shape_err_verdict(ck, "C02.R5", "effective_energy(v,a)", paths):
-            Eva, R = p.value
-            v, a = T.sym("v"), T.sym("a")
-            ref = -(T.app("matmul", v, R["b"]) + sp_sum(aff(v, R["W"], R["c"])) + T.app("matmul", a, R["d"]) + T.app("einsum3", "...v,av,...a->...", v, R["U"], a))
-            d = lin_diff(Eva.term, ref)
-            ck.check(diff_verdict(d), "C02.R5", "effective_energy(v,a)", prog.method("PurificationRBM", "effective_energy").site(),
-                     "joint energy with explicit auxiliary state: " + diff_msg(d))
+        for p in returning(paths, "E(v,a)"):
+            if shape_err_verdict(ck, "C02.R5", "effective_energy(v,a)", paths):
+                Eva, R = p.value
+                v, a = T.sym("v"), T.sym("a")
+                ref = -(T.app("matmul", v, R["b"]) + sp_sum(aff(v, R["W"], R["c"])) + T.app("matmul", a, R["d"]) + T.app("einsum3", "...v,av,...a->...", v, R["U"], a))
+                d = lin_diff(Eva.term, ref)
+                ck.check(diff_verdict(d), "C02.R5", "effective_energy(v,a)", prog.method("PurificationRBM", "effective_energy").site(),
+                         "joint energy with explicit auxiliary state: " + diff_msg(d))
     # partition / normalization
     with ck.guard("C02.R5", "partition"):
         def pt(it, s):
@@ -218,11 +218,11 @@ def run(ck):
             return call(it, s, "normalization", sp), call(it, am, "partition", sp), call(it, am, "effective_energy", sp)
 
         paths = _ev(ck, pt)
-        p = single(paths, "partition")
-        n, pa, E = p.value
-        ck.check(pa.term == T.app("sum", T.exp(-E.term), (-1,)), "C02.R5", "partition=sum exp(-E)", prog.method("PurificationRBM", "partition").site(),
-                 "partition is not the sum over the space of exp(-effective_energy)")
-        ck.check(n.term == pa.term, "C02.R5", "normalization=partition", prog.method(DM, "normalization").site(), "normalization(space) is not rbm_am.partition(space)")
+        for p in returning(paths, "partition"):
+            n, pa, E = p.value
+            ck.check(pa.term == T.app("sum", T.exp(-E.term), (-1,)), "C02.R5", "partition=sum exp(-E)", prog.method("PurificationRBM", "partition").site(),
+                     "partition is not the sum over the space of exp(-effective_energy)")
+            ck.check(n.term == pa.term, "C02.R5", "normalization=partition", prog.method(DM, "normalization").site(), "normalization(space) is not rbm_am.partition(space)")
     ck.require_min("C02.R1", 6)
     ck.require_min("C02.R2", 8)
     ck.require_min("C02.R3", 8)
